@@ -35,7 +35,7 @@ type C03Plan struct {
 	Invalid int      `json:"invalid,omitempty"` // number of invalid records in a "fastq-records" input
 }
 
-var c03Readers = []string{"fasta", "fastq", "bed3", "bed4", "bed5", "bed6", "bed12", "gff"}
+var c03Readers = []string{"fasta", "fastq", "bed3", "bed4", "bed5", "bed6", "bed12", "gff", "gff", "gff-notimeformat"}
 
 // genericRead adapts all readers to one call shape.
 func openReader(kind string, src io.Reader) (func() (interface{}, error), error) {
@@ -46,8 +46,11 @@ func openReader(kind string, src io.Reader) (func() (interface{}, error), error)
 	case "fastq":
 		r := fastq.NewReader(src, linear.NewQSeq("", nil, alphabet.DNA, alphabet.Sanger))
 		return func() (interface{}, error) { s, err := r.Read(); return s, err }, nil
-	case "gff":
+	case "gff", "gff-notimeformat":
 		r := gff.NewReader(src)
+		if kind == "gff-notimeformat" {
+			r.TimeFormat = "" // a documented setting: date lines are then not parsed
+		}
 		return func() (interface{}, error) { f, err := r.Read(); return f, err }, nil
 	}
 	var t int
@@ -238,7 +241,87 @@ func fmtOf(reader string) string {
 	if strings.HasPrefix(reader, "bed") {
 		return "bed"
 	}
+	if strings.HasPrefix(reader, "gff") {
+		return "gff"
+	}
 	return reader
+}
+
+// mangleCase flips the case of some letters.
+func mangleCase(r *simrt.RNG, s string) string {
+	b := []byte(s)
+	mode := r.Intn(4)
+	for i, c := range b {
+		isL := (c >= 'a' && c <= 'z') || (c >= 'A' && c <= 'Z')
+		if !isL {
+			continue
+		}
+		switch mode {
+		case 0: // all upper
+			if c >= 'a' {
+				b[i] = c - 32
+			}
+		case 1: // all lower
+			if c <= 'Z' {
+				b[i] = c + 32
+			}
+		case 2: // capitalised
+			if i == 0 && c >= 'a' {
+				b[i] = c - 32
+			} else if i > 0 && c <= 'Z' {
+				b[i] = c + 32
+			}
+		default:
+			if r.Bool() {
+				b[i] = c ^ 32
+			}
+		}
+	}
+	return string(b)
+}
+
+// gffMetalines builds an input out of GFF "##" lines: every keyword the reader
+// knows, in the documented spelling or with its case changed, with complete,
+// missing or odd arguments, and inline sequence blocks whose begin and end
+// markers agree or not.
+func gffMetalines(r *simrt.RNG) []byte {
+	var buf bytes.Buffer
+	kws := []string{"gff-version", "source-version", "date", "Type", "type", "sequence-region", "DNA", "RNA", "Protein", "dna", "rna", "protein"}
+	args := []string{"", "2", "3", "x", "prog 1.0", "2020-1-02", "2020-01-02", "DNA", "DNA chr1", "Protein p", "chr1 1 100", "chr1 0 5", "chr1 -3 7", "chr1 1", "s1", "s 1"}
+	for n := r.Range(1, 5); n > 0; n-- {
+		kw := kws[r.Intn(len(kws))]
+		if r.Intn(3) == 0 {
+			kw = mangleCase(r, kw)
+		}
+		switch strings.ToLower(kw) {
+		case "dna", "rna", "protein":
+			if r.Intn(3) != 0 {
+				// a sequence block
+				end := kw
+				if r.Intn(4) == 0 {
+					end = mangleCase(r, kw)
+				}
+				fmt.Fprintf(&buf, "##%s %s\n", kw, []string{"s1", "p1", ""}[r.Intn(3)])
+				for k := r.Intn(3); k > 0; k-- {
+					fmt.Fprintf(&buf, "##%s\n", genLetters(r, "protein", r.Range(1, 12)))
+				}
+				if r.Intn(6) != 0 {
+					fmt.Fprintf(&buf, "##end-%s\n", end)
+				}
+				continue
+			}
+		}
+		a := args[r.Intn(len(args))]
+		if a == "" {
+			fmt.Fprintf(&buf, "##%s\n", kw)
+		} else {
+			fmt.Fprintf(&buf, "##%s %s\n", kw, a)
+		}
+	}
+	if r.Bool() {
+		buf.WriteString("seq\tsrc\tfeat\t1\t5\t.\t+\t.\n")
+	}
+	return buf.Bytes()
 }
 
 func randomBytes(r *simrt.RNG, reader string) []byte {
@@ -295,6 +378,15 @@ func validText(r *simrt.RNG, reader string) []byte {
 			var text []byte
 			var v *simrt.Violation
 			if pv := guard(func() { text, _, _, v = writeFeats(&pl) }); pv == nil && v == nil {
+				if pl.Format == "gff" && r.Intn(3) == 0 {
+					// the metadata lines a writer may emit (WriteMetaData)
+					meta := []string{"##date 2020-1-02\n", "##source-version prog 1.0\n", "##Type DNA\n", "##Type Protein p1\n", "# a comment\n"}
+					pre := ""
+					for k := r.Range(1, 3); k > 0; k-- {
+						pre += meta[r.Intn(len(meta))]
+					}
+					text = append([]byte(pre), text...)
+				}
 				return text
 			}
 		}
@@ -336,8 +428,24 @@ func mutate(r *simrt.RNG, text []byte, reader string) []byte {
 				f = append(f[:fi+1], f[fi:]...)
 			case 2: // empty field
 				f[fi] = nil
-			case 3: // numeric boundary value
-				f[fi] = []byte(numericBoundary[r.Intn(len(numericBoundary))])
+			case 3: // numeric boundary value, or surgery on a comma-separated list
+				if parts := bytes.Split(f[fi], []byte{','}); len(parts) > 1 && r.Bool() {
+					switch r.Intn(3) {
+					case 0: // drop one component
+						k := r.Intn(len(parts))
+						parts = append(parts[:k], parts[k+1:]...)
+					case 1: // keep the first two
+						parts = parts[:2]
+					default: // duplicate one
+						k := r.Intn(len(parts))
+						parts = append(parts[:k+1], parts[k:]...)
+					}
+					f[fi] = bytes.Join(parts, []byte{','})
+				} else if r.Intn(4) == 0 {
+					f[fi] = []byte([]string{"1,2", "255,128", "0,0", "1,2,3,4", ",", "1,", ",1"}[r.Intn(7)])
+				} else {
+					f[fi] = []byte(numericBoundary[r.Intn(len(numericBoundary))])
+				}
 			default: // keep only the first columns
 				f = f[:fi]
 			}
@@ -367,6 +475,9 @@ func mutate(r *simrt.RNG, text []byte, reader string) []byte {
 // kinds the property statement names.
 func targeted(r *simrt.RNG, reader string) []byte {
 	bad := numericBoundary[3:5][r.Intn(2)] // "" or "x": non-numeric
+	if fmtOf(reader) == "gff" {
+		reader = "gff"
+	}
 	switch reader {
 	case "fastq":
 		if r.Intn(3) == 0 {
@@ -463,6 +574,10 @@ func genC03Input(r *simrt.RNG) (reader string, input []byte, expect string, vali
 	}
 	if r.Intn(12) == 0 {
 		input = boundaryLines(r, reader)
+		return
+	}
+	if fmtOf(reader) == "gff" && r.Intn(5) == 0 {
+		input = gffMetalines(r)
 		return
 	}
 	switch k := r.Intn(10); {
